@@ -176,6 +176,13 @@ pub fn main(args: &[String]) {
     quiet_panics();
     let rows = read_ndjson(&args[0]);
     let meta = rows.iter().find(|r| r["meta"] == "env").expect("env meta");
+    // bystanders: variables no input refers to, whose value or name is not text at all (bytes that are not UTF-8) - a
+    // process environment is made of bytes (EnvExpand.tla: only the variables an input names play a part)
+    {
+        use std::os::unix::ffi::OsStrExt;
+        std::env::set_var(std::ffi::OsStr::from_bytes(b"LV_BYSTANDER"), std::ffi::OsStr::from_bytes(b"caf\xe9"));
+        std::env::set_var(std::ffi::OsStr::from_bytes(b"LV_BY\xffSTANDER"), std::ffi::OsStr::from_bytes(b"x"));
+    }
     for (k, v) in meta["vars"].as_object().unwrap() {
         std::env::set_var(k.replace('~', "\u{e9}"), v.as_str().unwrap().replace('^', "\u{fc}"));
     }
